@@ -952,6 +952,11 @@ func (ds *AnySource) PrepareRun(Npresamples int, Nsamples int) error {
 			ts = &defaultTS
 		}
 		dsp.TriggerState = *ts
+		// The trigger state holds its own copy of the record lengths (see ConfigureTrigger and
+		// ConfigurePulseLengths, which keep it in sync). It determines how much history TrimStream
+		// retains, so it must be valid from the first block, not only after the first reconfiguration.
+		dsp.EMTState.nsamp = int32(Nsamples)
+		dsp.EMTState.npre = int32(Npresamples)
 
 		// Publish Records and Record Summaries over ZMQ. Not optional at this time.
 		dsp.SetPubRecords()
